@@ -64,18 +64,43 @@ func lkind(v lua.LValue) string {
 // interpreter. Paths: "a.b" for table members, "a<mt>" for a metatable,
 // "<string-mt>" etc. for per-type metatables. A table reached a second time
 // is reported as "=<first path>" and not descended into again.
-func goWalk() (out []reach, err error) {
+func goWalk() ([]reach, error) {
+	all, err := goWalkPool(1)
+	if err != nil {
+		return nil, err
+	}
+	return all[0], nil
+}
+
+// goWalkPool takes n interpreters out of one pool AT THE SAME TIME (the pool
+// pre-builds five; the rest are created on demand by Get) and walks each.
+func goWalkPool(n int) (all [][]reach, err error) {
 	defer func() {
 		if r := recover(); r != nil {
 			err = fmt.Errorf("walker panicked: %v", r)
 		}
 	}()
 	pl := serverNewPool(&server.Server{})
-	L, e := poolGet(pl)
-	if e != nil {
-		return nil, e
+	var held []*lua.LState
+	defer func() {
+		for _, L := range held {
+			poolPut(pl, L)
+		}
+	}()
+	for i := 0; i < n; i++ {
+		L, e := poolGet(pl)
+		if e != nil {
+			return nil, e
+		}
+		held = append(held, L)
 	}
-	defer poolPut(pl, L)
+	for _, L := range held {
+		all = append(all, walkState(L))
+	}
+	return all, nil
+}
+
+func walkState(L *lua.LState) (out []reach) {
 	seen := map[*lua.LTable]string{}
 	var walk func(path string, v lua.LValue)
 	keyStr := func(k lua.LValue) string {
@@ -134,5 +159,5 @@ func goWalk() (out []reach, err error) {
 		}
 	}
 	sort.Slice(out, func(i, j int) bool { return out[i].Path < out[j].Path })
-	return out, nil
+	return out
 }
